@@ -263,6 +263,11 @@ class StmtMixin:
         if isinstance(it, tuple):
             if it[0] == "call" and isinstance(it[1], tuple):
                 f = it[1]
+                if f[0] == "attr" and isinstance(f[1], tuple) and f[1][:1] == ("regtop",) and f[2] in ("items", "values", "keys"):
+                    # iterating a whole factory registry: the per-address containers, for any address
+                    key = ("anyaddr", loop_id)
+                    cont = ("reg", f[1][1], key)
+                    return {"items": ("tuple", (key, cont)), "values": cont, "keys": key}[f[2]]
                 if f[0] == "attr" and regof(f[1]) and f[2] in ("items", "values", "keys"):
                     rg = f[1]
                     key = ("keyof", rg[1], loop_id)
